@@ -579,3 +579,91 @@ def c17(tier, rep):
     rep.set("distinct_nontrivial", len(dp) + len(np_))
     rep.set("rule", "(a) dense programs: B branches x A actions per step x 2 steps with a block capture carrying a distinct constant on EVERY action for (B, A) over {2,11,12}^2 (thorough: + 24), 13-step branches (__sr10..__sr12), 13 and 24 branches in the thread-spawning kinds (__j10 vs __j1), fold/try_fold captures with operand index 0 and 1 in 12 branches — any clash of generated names makes a binding shadow another and changes a constant / the trace; (b) nesting: EVERY ordered pair of the 12 macros with the inner macro as operand value, inside a block capture and inside a handler (async inner in sync context through a nesting-free block_on, task-spawning inner inside a tokio runtime context); oracle: value + trace (per-branch projections) equal the reference applied recursively; every program is distinct and non-trivial by construction (distinct constants, logging callbacks)")
     sample_family(rep, np_, fr2)
+
+
+@check("C19", "exploration")
+def c19(tier, rep):
+    from . import fam_costs as fc, fam_profiles as fp, fam_names as fn
+
+    ap = fc.alloc_programs(tier)
+    fr = e2.run_family("c19alloc", ap, extra_header=fp.HEADER + fc.ALLOC_HEADER)
+    judge_family(rep, fr)
+    alloc_free = sum(1 for p in ap if "allocation-free=true" in ((fr.results.get(p.id, {}).get("sample") or {}).get("value") or ""))
+    rep.set("allocation_programs", len(ap))
+    rep.set("allocation_programs_whose_sampled_row_is_allocation_free", alloc_free)
+    tp = fc.tok_programs(tier)
+    fr2 = e2.run_family("c19tok", tp, extra_header=fp.HEADER)
+    judge_family(rep, fr2)
+    rp = fc.rc_programs(tier) + fc.borrow_programs()
+    fr3 = e2.run_family("c19bounds", rp, extra_header=fn.NEST_HEADER + fc.RC_PRE)
+    judge_family(rep, fr3)
+    rep.set("rule", "allocation: int-only depth profiles n<=4,d<=3 (plain, capture-rich, wrapper steps; every failure subset for small try programs) in join!/try_join! under a counting global allocator with logging switched off: the macro evaluation is allocation-free exactly when the reference is; bounds: (i) depth profiles over a move-only, non-Clone, drop-logging token in all 12 macros (values, created/dropped counts and dropped-id multiset equal the reference); (ii) Rc values in the four non-spawning macros incl. 10- and 12-action single steps; (iii) & / &mut borrows of caller locals through step closures, wrapper closures, captures, branch values and handlers: the macro must compile wherever the reference does and agree with it (the universal type-level claim is decided for these shapes only)")
+    sample_family(rep, ap, fr)
+
+
+@check("C10", "exploration")
+def c10(tier, rep):
+    from . import e1, fam_costs as fc, fam_profiles as fp, fam_chains
+
+    exe = e1.build()
+    L = 2 if tier == "quick" else 3
+    d = e1_mode(rep, exe, ["c10", L, ALL8], "C10", "exactly once (expansion)")
+    rep.set("marker_inputs", d["inputs"] if d else 0)
+    tp = fc.tok_programs(tier)
+    fr = e2.run_family("c19tok", tp, extra_header=fp.HEADER)
+    judge_family(rep, fr)
+    progs, _ = fam_chains.sync_chain_programs(2)
+    fr2 = e2.run_family("c10chains", progs)
+    judge_family(rep, fr2)
+    from . import fam_captures
+
+    cp, _ = fam_captures.chain_programs(tier)
+    fr3 = e2.run_family("c11chains", cp)
+    judge_family(rep, fr3)
+    rep.set("rule", "E1: EVERY chain over the 70 operator instances up to length %d (plain, block and closure operands; + a second branch with let, deferred steps, a capture and a handler) in 8 configs, each user operand a unique marker: every marker occurs exactly once in the expansion's token stream; E2: depth profiles over a move-only, non-Clone, drop-logging token in all 12 macros with every failure subset (event multiset per branch, created = dropped, dropped-id multiset equal the reference: nothing cloned, leaked or dropped twice) and all typed chains of length <= 2 (callbacks invoked exactly as often, with the same arguments, as the documented method invokes them), plus the capture-dense chain family of C11 (every block operand evaluated and every captured callable used exactly once)" % L)
+    sample_family(rep, tp, fr)
+
+
+@check("C07", "translation_validation")
+def c07(tier, rep):
+    from . import e1, e3a, e3t, fam_agree as fa, fam_async, fam_profiles as fp, fam_threads
+
+    progs = fa.pair_programs(tier)
+    fr = e2.run_family("c07pairs", progs, extra_header=fp.HEADER)
+    judge_family(rep, fr)
+    cp = fa.chain_pair_programs()
+    fr2 = e2.run_family("c07chains", cp)
+    judge_family(rep, fr2)
+    rep.set("programs", len(progs) + len(cp))
+    # (b) real expansion text: alias == long name (== join_impl as a library)
+    exe = e1.build()
+    npairs, nbind, problems, items = fa.expansion_text_check(exe)
+    rep.set("expansion_pairs_compared", npairs)
+    rep.set("e1_bindings_to_real_macro_compared", nbind)
+    for pr in problems:
+        if pr["what"].startswith("MACHINERY") or pr["what"].startswith("BINDING"):
+            raise MachineryError("%s: %s" % (pr["what"], pr.get("body")))
+        rep.violate("%s!{ %s } | expansion text" % (pr["alias"], pr["body"]), "%s [%s!{ %s }]" % (pr["what"], pr["alias"], pr["body"]), pr)
+    # (c) E3: the outcome set explored for an alias equals that of its long name; thread identity incl. an unnamed caller
+    res = run_threads(rep, tier, "c08", "spawn variant vs plain macro (all schedules, 3 caller names)")
+    ares = run_async(rep, tier, "c09", "task-spawning variant vs plain macro (all wake-up orders)")
+    cmp_n = 0
+    for results in (res.results, ares.results):
+        for pid, d in results.items():
+            mac = pid.split("/")[0]
+            long = dsl_long(mac)
+            if long and pid.replace(mac + "/", long + "/", 1) in results:
+                other = results[pid.replace(mac + "/", long + "/", 1)]
+                cmp_n += 1
+                if d["ohash"] != other["ohash"] or d["executions"] != other["executions"]:
+                    rep.violate("%s | outcome set" % pid, "the set of outcomes explored for %s differs from the one of its long name (%d vs %d executions)" % (pid, d["executions"], other["executions"]), {"alias": d.get("sample"), "long": other.get("sample")})
+    rep.set("alias_outcome_sets_compared", cmp_n)
+    rep.set("disagreements_checked", fr.rows + fr2.rows + npairs + cmp_n)
+    rep.set("rule", "(a) the SAME generated program (depth profiles plain / capture-rich / handler+let with every failure subset; every typed chain of length <= 2 as first branch) instantiated under both names of each of the 12 pairs {plain, spawn variant, alias}: results and per-branch traces compared directly, real macro against real macro; (b) real expansion text (rustc -Zunpretty=expanded) of alias!{P} == long!{P} for P over the 40-input feature corpus x 4 alias pairs, and join_impl called as a library (E1) == the real proc-macro; (c) under the thread scheduler / deterministic executor the outcome set explored for an alias equals the one of its long name and every outcome equals the plain macro's reference")
+    sample_family(rep, progs, fr)
+
+
+def dsl_long(mac):
+    from . import dsl
+
+    return dsl.LONG_NAME.get(mac)
